@@ -409,19 +409,20 @@ func (dht *FullRT) runCrawler(ctx context.Context) {
 			newRt.Add(kadKey)
 		}
 
+		// Install the three structures under all three locks (taken in the same
+		// order as readers take them), so that a reader never combines the trie
+		// of one crawl with the maps of another.
+		dht.rtLk.Lock()
+		dht.kMapLk.Lock()
 		dht.peerAddrsLk.Lock()
 		dht.peerAddrs = peerAddrs
-		dht.peerAddrsLk.Unlock()
 		verifYield("swap:addrs-installed")
-
-		dht.kMapLk.Lock()
 		dht.keyToPeerMap = kPeerMap
-		dht.kMapLk.Unlock()
 		verifYield("swap:keymap-installed")
-
-		dht.rtLk.Lock()
 		dht.rt = newRt
 		dht.lastCrawlTime = time.Now()
+		dht.peerAddrsLk.Unlock()
+		dht.kMapLk.Unlock()
 		dht.rtLk.Unlock()
 	}
 }
